@@ -331,7 +331,7 @@ pub fn c06(a: &Args) -> (Stats, String) {
     fams.push(("EXTREME long shapes", fam::extreme(a.thorough)));
     if let Some(p) = &a.hard {
         fams.push(("HARD(q) truncated spellings", hard_jobs(p, MBOTH)));
-        fams.push(("GAPS", crate::gap_jobs(p)));
+        fams.push(("GAPS + LIMB-EDGE + RIPPLE", crate::gap_jobs(p)));
     }
     let (mut st, extra) = run_filtered(fams, MBOTH, "", |c| sig_digits(c) >= 20);
     // S0 conformance through the hook (machinery-level evidence, never a verdict)
@@ -549,7 +549,7 @@ pub fn c15(a: &Args) -> (Stats, String) {
     fams.push(("LONG", fam::long_family(false)));
     if let Some(p) = &a.hard {
         fams.push(("HARD(q)", hard_jobs(p, MBOTH)));
-        fams.push(("GAPS", crate::gap_jobs(p)));
+        fams.push(("GAPS + LIMB-EDGE + RIPPLE", crate::gap_jobs(p)));
     }
     let mut total = Stats::default();
     let mut rep = Vec::new();
